@@ -140,7 +140,7 @@ Qed.
 Lemma schedule_count_ok s p0 gok sn p : RInv s → count_ok s (r_schedule s p0 gok sn).1 p.
 Proof.
   intros Hinv. unfold r_schedule.
-  destruct (rs_shut s); [by left|].
+  destruct (rs_shut s) eqn:Hshut; [by left|].
   destruct (lookup_def (rs_defs s) p0) as [d|] eqn:Hd; [|by left].
   set (nj := r_new_job s p0 d gok sn). set (id := length (rs_jobs s)).
   set (s1 := r_set_jobs s (rs_jobs s ++ [nj])).
@@ -208,8 +208,9 @@ Proof.
       all: try (simpl; rewrite ?Hst, ?Hcomp; done).
       all: try (simpl; intros Hl; destruct (inv_live _ _ Hinv id j Hj Hl) as ([? ?] & _); congruence).
       all: try by rewrite Hnw.
-      + simpl. rewrite wl_get_set_eq. intros Hi. by apply elem_of_remove_id in Hi as [_ ?].
-      + right. done. }
+      all: try (unfold r_is_running; simpl; by rewrite Hst).
+      all: try (simpl; rewrite wl_get_set_eq; intros Hi; by apply elem_of_remove_id in Hi as [_ ?]).
+      all: try (right; done). }
     apply dequeue_count_ok; [done|].
     change (r_running_count s2 p) with (r_running_count (r_upd s id r_cancel_notimer) p).
     apply upd_count_le. intros j0. unfold rcounts, r_is_running. simpl. rewrite !andb_true_iff. intros [_ H].
@@ -229,6 +230,7 @@ Proof.
     all: try (simpl; by apply (inv_live _ _ Hinv id j)).
     all: try (simpl; by apply (inv_comp _ _ Hinv id j)).
     all: try (simpl; by apply (inv_creq _ _ Hinv id j)).
+    all: try (by apply (inv_run _ _ Hinv id j)).
     all: try (simpl; intros t0 Ht0; by apply (inv_start _ _ Hinv id j t0)).
     - intros Hq. destruct (inv_wl _ _ Hinv _ _ Hq) as (j' & Hj' & _ & Hw' & _). rewrite Hj in Hj'. by injection Hj' as <-.
     - by left. }
@@ -256,6 +258,7 @@ Proof.
     all: try by left.
     all: try by rewrite Hnw.
     all: try (simpl; intros Hcq _; rewrite Hcq; by rewrite orb_true_r).
+    all: try (unfold r_is_running; simpl; by rewrite Ht).
     intros Hq. destruct (inv_wl _ _ Hinv _ _ Hq) as (j' & Hj' & _ & Hw' & _). rewrite Hj in Hj'. injection Hj' as <-.
     apply waiting_inv in Hw' as [? _]. congruence. }
   destruct (r_removed j); intros [= <-]; [by left|]. by apply dequeue_count_ok.
@@ -409,7 +412,8 @@ Definition job_mono (j j' : rjob) : Prop :=
   ∧ (is_Some (r_start j) → is_Some (r_start j'))
   ∧ (r_completed j = true → r_completed j' = true)
   ∧ (r_creq j = true → r_creq j' = true)
-  ∧ r_snap j' = r_snap j ∧ r_gok j' = r_gok j.
+  ∧ r_snap j' = r_snap j ∧ r_gok j' = r_gok j
+  ∧ (r_removed j = true → r_removed j' = true).
 
 Definition state_mono (s s' : rstate) : Prop :=
   ∀ id j, rs_jobs s !! id = Some j → ∃ j', rs_jobs s' !! id = Some j' ∧ job_mono j j'.
@@ -417,7 +421,7 @@ Definition state_mono (s s' : rstate) : Prop :=
 Lemma job_mono_refl j : job_mono j j. Proof. repeat split; auto. Qed.
 Lemma job_mono_trans j1 j2 j3 : job_mono j1 j2 → job_mono j2 j3 → job_mono j1 j3.
 Proof.
-  intros (?&?&?&Hc1&Hs1&Ht1&Hk1&Hq1&?&?) (?&?&?&Hc2&Hs2&Ht2&Hk2&Hq2&?&?). repeat split; try congruence; auto.
+  intros (?&?&?&Hc1&Hs1&Ht1&Hk1&Hq1&?&?&?) (?&?&?&Hc2&Hs2&Ht2&Hk2&Hq2&?&?&?). repeat split; try congruence; auto.
 Qed.
 Lemma state_mono_refl s : state_mono s s. Proof. intros id j Hj. exists j. split; [done|apply job_mono_refl]. Qed.
 Lemma state_mono_trans s1 s2 s3 : state_mono s1 s2 → state_mono s2 s3 → state_mono s1 s3.
@@ -531,7 +535,7 @@ Proof.
   { subst s1. rewrite r_upd_lookup. destruct (decide (id = id)); [|done]. by rewrite Hj. }
   assert (Hm : state_mono s1 s').
   { destruct (r_removed j); injection H as <-; [apply state_mono_refl|apply dequeue_loop_mono]. }
-  destruct (Hm id _ H1) as (j' & Hj' & (_ & _ & _ & Hc & _ & _ & Hk & _ & _ & _)).
+  destruct (Hm id _ H1) as (j' & Hj' & (_ & _ & _ & Hc & _ & _ & Hk & _ & _ & _ & _)).
   exists j'. split; [done|]. split; [apply Hc|apply Hk]; simpl; [|done]. rewrite Hq. by rewrite orb_true_r.
 Qed.
 
@@ -644,8 +648,9 @@ Proof.
       all: try (simpl; rewrite ?Hst, ?Hcomp; done).
       all: try (simpl; intros Hl; destruct (inv_live _ _ Hinv id j Hj Hl) as ([? ?] & _); congruence).
       all: try by rewrite Hnw.
-      + simpl. rewrite wl_get_set_eq. intros Hi. by apply elem_of_remove_id in Hi as [_ ?].
-      + right. done. }
+      all: try (unfold r_is_running; simpl; by rewrite Hst).
+      all: try (simpl; rewrite wl_get_set_eq; intros Hi; by apply elem_of_remove_id in Hi as [_ ?]).
+      all: try (right; done). }
     etrans; [by apply dequeue_wl_len|done].
 Qed.
 
@@ -695,6 +700,7 @@ Proof.
       all: try (simpl; by apply (inv_live _ _ Hinv id j)).
       all: try (simpl; by apply (inv_comp _ _ Hinv id j)).
     all: try (simpl; by apply (inv_creq _ _ Hinv id j)).
+    all: try (by apply (inv_run _ _ Hinv id j)).
       all: try (simpl; intros t0 Ht0; by apply (inv_start _ _ Hinv id j t0)).
       - intros Hq. destruct (inv_wl _ _ Hinv _ _ Hq) as (j' & Hj' & _ & Hw' & _). rewrite Hj in Hj'. by injection Hj' as <-.
       - by left. }
@@ -712,6 +718,7 @@ Proof.
       all: try by left.
       all: try by rewrite Hnw.
       all: try (simpl; intros Hcq _; rewrite Hcq; by rewrite orb_true_r).
+    all: try (unfold r_is_running; simpl; by rewrite Ht).
       intros Hq. destruct (inv_wl _ _ Hinv _ _ Hq) as (j' & Hj' & _ & Hw' & _). rewrite Hj in Hj'. injection Hj' as <-.
       apply waiting_inv in Hw' as [? _]. congruence. }
     destruct (r_removed j); intros [= <- <-]; left; [done|]. etrans; [by apply dequeue_wl_len|done].
@@ -746,4 +753,70 @@ Proof.
   - destruct (resolve_queue_room s p Hact) as [Hq1 Hq2]. rewrite Hwl, app_length. simpl. split.
     + intros n Hn. specialize (Hq1 n Hn). lia.
     + intros Hr. rewrite (Hq2 Hr). simpl. lia.
+Qed.
+
+(** ** C11: a forced shutdown leaves no running job without a cancel request *)
+Definition cancel_done (j : rjob) : Prop :=
+  r_removed j = true ∨ r_canceled j = true ∨ r_completed j = true ∨ r_creq j = true.
+
+Lemma cancel_done_mono j j' : job_mono j j' → cancel_done j → cancel_done j'.
+Proof.
+  intros (_&_&_&Hc&_&_&Hk&Hq&_&_&Hr) [H|[H|[H|H]]]; [left|right; left|right; right; left|right; right; right]; auto.
+Qed.
+
+Lemma dequeue_loop_length fuel s p : length (rs_jobs (r_dequeue_loop fuel s p)) = length (rs_jobs s).
+Proof.
+  revert s. induction fuel as [|x fuel IH]; intros s; simpl; [done|].
+  destruct (wl_get (rs_wait s) p) as [|h rest]; [done|]. destruct (rs_jobs s !! h) as [j|]; [|done].
+  destruct (bool_decide _ && _); [|done]. rewrite IH.
+  by destruct (try_start_frame (r_set_wait s p rest) h) as (_&_&_&_&->&_).
+Qed.
+
+Lemma cancel_length s id : length (rs_jobs (r_cancel s id).1) = length (rs_jobs s).
+Proof.
+  unfold r_cancel. destruct (r_find s id) as [j|]; [|done]. destruct (r_canceled j); [done|]. destruct (r_completed j); [done|].
+  destruct (r_start j); cbn [fst].
+  - destruct (r_live j); [apply r_upd_length|done].
+  - unfold r_dequeue. rewrite dequeue_loop_length. simpl. apply alter_length.
+Qed.
+
+Lemma cancel_own s id j :
+  RInv s → rs_jobs s !! id = Some j → ∃ j', rs_jobs (r_cancel s id).1 !! id = Some j' ∧ cancel_done j'.
+Proof.
+  intros Hinv Hj. unfold r_cancel, r_find. rewrite Hj.
+  destruct (r_removed j) eqn:Hr; [exists j; split; [done|by left]|].
+  destruct (r_canceled j) eqn:Hc; [exists j; split; [done|right; by left]|].
+  destruct (r_completed j) eqn:Hk; [exists j; split; [done|right; right; by left]|].
+  destruct (r_start j) as [t|] eqn:Hst.
+  - assert (Hl : r_live j = true) by (apply (inv_run _ _ Hinv id j Hj); unfold r_is_running; by rewrite Hst, Hk, Hc).
+    rewrite Hl. cbn [fst]. exists (r_set_creq j). split; [|right; right; by right].
+    rewrite r_upd_lookup. destruct (decide (id = id)); [|done]. by rewrite Hj.
+  - cbn [fst]. set (s2 := r_set_wait (r_upd s id r_cancel_notimer) (r_pipe j) _).
+    assert (H2 : rs_jobs s2 !! id = Some (r_cancel_notimer j)).
+    { subst s2. simpl. rewrite list_lookup_alter, Hj. done. }
+    destruct (dequeue_loop_mono (wl_get (rs_wait s2) (r_pipe j)) s2 (r_pipe j) id _ H2) as (j' & Hj' & Hm).
+    exists j'. split; [done|]. eapply cancel_done_mono; [exact Hm|]. right. by left.
+Qed.
+
+Lemma cancel_all_done s id j :
+  RInv s → rs_jobs (r_cancel_all s) !! id = Some j → cancel_done j.
+Proof.
+  intros Hinv. unfold r_cancel_all.
+  (* processed ids satisfy cancel_done; ids still to come are handled when their turn comes *)
+  assert (H : ∀ l s0, RInv s0 → ∀ i j1, rs_jobs (fold_left (fun s id => (r_cancel s id).1) l s0) !! i = Some j1 →
+              (i ∈ l ∧ is_Some (rs_jobs s0 !! i)) ∨ (∃ j0, rs_jobs s0 !! i = Some j0 ∧ cancel_done j0) → cancel_done j1).
+  { induction l as [|x l IH]; intros s0 Hinv0 i j1 Hlk Hor; simpl in *.
+    - destruct Hor as [[Hin _]|(j0 & Hj0 & Hd)]; [by apply elem_of_nil in Hin|]. rewrite Hj0 in Hlk. by injection Hlk as <-.
+    - apply (IH (r_cancel s0 x).1 (cancel_inv _ _ Hinv0) i j1 Hlk).
+      destruct Hor as [[Hin [j0 Hj0]]|(j0 & Hj0 & Hd)].
+      + apply elem_of_cons in Hin as [->|Hin].
+        * right. by apply (cancel_own s0 x j0).
+        * left. split; [done|]. destruct (cancel_mono s0 x i j0 Hj0) as (j' & Hj' & _). eauto.
+      + right. destruct (cancel_mono s0 x i j0 Hj0) as (j' & Hj' & Hm). exists j'. split; [done|]. by eapply cancel_done_mono. }
+  intros Hlk. apply (H _ s Hinv id j Hlk). left.
+  assert (Hlen : ∀ l s0, length (rs_jobs (fold_left (fun s id => (r_cancel s id).1) l s0)) = length (rs_jobs s0)).
+  { induction l as [|x l IH]; intros s0; simpl; [done|]. rewrite IH. apply cancel_length. }
+  apply lookup_lt_Some in Hlk. rewrite Hlen in Hlk. split.
+  - apply elem_of_list_In, in_seq. lia.
+  - by apply lookup_lt_is_Some.
 Qed.
